@@ -83,8 +83,8 @@ pub fn gen_case(prop: &str, run_seed: u64) -> Case {
             }
         }
         "C16" => {
-            if rng.chance(1, 10) {
-                Case::Server { scenario: gen_cycle_live(&mut rng), sched_seed }
+            if rng.chance(1, 5) {
+                Case::Server { scenario: gen_graph_live(&mut rng), sched_seed }
             } else {
                 Case::Graph(ide_layer::gen_graph(&mut rng, true))
             }
@@ -95,25 +95,58 @@ pub fn gen_case(prop: &str, run_seed: u64) -> Case {
 }
 
 /// Server-layer variant of C16: the editor opens the root of a random include graph (cycles
-/// included) and asks for its outline; the notification must be processed.
-fn gen_cycle_live(rng: &mut Rng) -> Scenario {
+/// included), edits it so that its include statements move, sometimes switches to another
+/// file of the graph, and asks for links and outlines. Every notification must be processed
+/// and every answer / publication must equal a fresh analysis of that state.
+fn gen_graph_live(rng: &mut Rng) -> Scenario {
     let g = ide_layer::gen_graph(rng, false);
-    let files = g.files();
+    let files = g.disk();
     let mut disk0 = BTreeMap::new();
     for (p, t) in &files {
         disk0.insert(p.to_string_lossy().into_owned(), world::FileState::Text(t.clone()));
     }
-    let root = format!("/w/f{}.td", g.root);
-    // the marker class lets the C08-style closing probe see that the text was analysed
-    let text = format!("{}class V_1;\n", files[&std::path::PathBuf::from(&root)]);
-    // disk == editor for the root as well: a self-include must not meet a different on-disk
-    // text (which document wins is C12's subject, not this property's)
-    disk0.insert(root.clone(), world::FileState::Text(text.clone()));
-    let mut ops = vec![Op::Open { path: root.clone(), text }];
-    ops.push(Op::Request { kind: crate::scenario::ReqKind::DocumentLink, path: root.clone(), offset: 0 });
-    let mut knobs = gen::sample_knobs(rng, 8, g.include_dir_set);
+    for p in &g.unreadable {
+        disk0.insert(p.clone(), world::FileState::Unreadable);
+    }
+    let mut version = 0u32;
+    let mut ops = Vec::new();
+    let mut open: Vec<usize> = Vec::new();
+    let n_notifs = rng.range(1, 4);
+    for step in 0..n_notifs {
+        let i = if step == 0 || rng.chance(2, 3) { g.root } else { rng.below(g.files.len()) };
+        let path = g.files[i].path.clone();
+        version += 1;
+        // blank lines in front move every include statement; the marker class lets the
+        // closing probe see that the text was analysed
+        let lead = "\n".repeat(if step == 0 { 0 } else { rng.below(4) });
+        let text = format!("{lead}{}class V_{version};\n", g.render(i).0);
+        if step == 0 || rng.chance(1, 2) {
+            // saved: disk == editor
+            ops.push(Op::DiskWrite { path: path.clone(), text: text.clone() });
+            if step == 0 {
+                disk0.insert(path.clone(), world::FileState::Text(text.clone()));
+                ops.pop();
+            }
+        }
+        if open.contains(&i) {
+            ops.push(Op::Change { path: path.clone(), text });
+        } else {
+            open.push(i);
+            ops.push(Op::Open { path: path.clone(), text });
+        }
+        for kind in [crate::scenario::ReqKind::DocumentLink, crate::scenario::ReqKind::DocumentSymbol] {
+            if rng.chance(2, 3) {
+                ops.push(Op::Request { kind, path: path.clone(), offset: 0 });
+            }
+        }
+        if rng.chance(1, 2) {
+            ops.push(Op::Sync);
+        }
+    }
+    let mut knobs = gen::sample_knobs(rng, 16, false);
+    knobs.include_dir = g.include_dir.clone();
     knobs.out_capacity = None;
-    Scenario { profile: "cycle-live".into(), knobs, disk0, ops }
+    Scenario { profile: "graph-live".into(), knobs, disk0, ops }
 }
 
 fn counters_of(res: &ExecResult, scenario: &Scenario) -> BTreeMap<String, u64> {
@@ -231,6 +264,23 @@ pub fn judge_server(prop: &str, scenario: &Scenario, res: &ExecResult, report: &
                 for v in verdict.violations {
                     report.violations.push(Violation::new("C16", format!("server:{}", v.class), v.detail));
                 }
+                let model = oracle::model_of(scenario);
+                let mut stats = MsgStats::default();
+                let judged = std::panic::catch_unwind(std::panic::AssertUnwindSafe(|| {
+                    oracle::check_messages("C16", scenario, &model, res, true, &mut stats)
+                }));
+                match judged {
+                    Ok(vs) => {
+                        for v in vs {
+                            report.violations.push(Violation::new("C16", format!("server:{}", v.class), v.detail));
+                        }
+                    }
+                    Err(p) => {
+                        exec::take_last_panic();
+                        report.discarded = Some(format!("reference analysis panicked: {}", ide_layer::panic_text(&p)));
+                    }
+                }
+                msg_stats_into(&mut report.counters, &stats);
             }
             Outcome::ReadBudget | Outcome::StepLimit => {
                 report.violations.push(Violation::new("C16", "non-termination", "opening the root never finished (disk-read / step budget)"));
@@ -299,12 +349,13 @@ pub fn run_case(prop: &str, case: &Case, plan: Option<&[Option<u16>]>) -> CaseRe
             report.outcome_class = "completed".into();
             report.shape_hash = g.shape_hash();
             report.inter_hash = 0;
-            report.nontrivial = g.edges.iter().any(|e| !e.is_empty());
+            report.nontrivial = g.files.iter().any(|f| !f.includes.is_empty());
             report.steps = stats.reads_total;
             let c = &mut report.counters;
             c.insert("cycle".into(), stats.cycles);
             c.insert("self_loop".into(), stats.self_loops);
             c.insert("diamond".into(), stats.diamonds);
+            c.insert("same_name_resolves_differently".into(), stats.name_collisions);
             c.insert("missing_target".into(), stats.missing_targets);
             c.insert("unreadable_target".into(), stats.unreadable_targets);
             c.insert("include_dir_hit".into(), stats.include_dir_hits);
